@@ -164,10 +164,10 @@ def run_case(rng, tier, idx):
         D, S = stencil(fint, cu, dc)
         if k == 0:
             D2, _ = stencil(fint, cu, dc, h=0.5)
-            den = S + np.abs(KT) @ np.abs(dc) + lin_noise(dc); den = den + 1e-6 * den.max() + 1e-300
+            den = S + np.abs(KT) @ np.abs(dc) + lin_noise(dc); den = den + 1e-5 * den.max() + 1e-300
             c.judge('fint is a polynomial of degree <= 4 along the direction (stencils at h and h/2 agree)', float((np.abs(D - D2) / den).max()), 1e-9)
         got = KT @ dc
-        den = S + np.abs(KT) @ np.abs(dc) + lin_noise(dc); den = den + 1e-6 * den.max() + 1e-300
+        den = S + np.abs(KT) @ np.abs(dc) + lin_noise(dc); den = den + 1e-5 * den.max() + 1e-300
         e = float((np.abs(got - D) / den).max())
         worst = max(worst, e)
         dirs.append((dc, D, den))
